@@ -14,6 +14,8 @@ def run(chk):
     from props import C09 as _c09
     _c09.run_batch_rules(chk)
     for f in _compose.load(["_funcs"], chk):
+        if hasattr(f, "table_obligation_setup"):
+            f.table_obligation_setup(chk)      # the function table of THIS working tree (the programs are generated against the model driver)
         if hasattr(f, "run_metamorphic"):
             f.run_metamorphic(chk)
         if hasattr(f, "sce_program"):
